@@ -199,6 +199,113 @@ def consume_scenarios(rnd, thorough):
     return out
 
 
+FIRST_DEFAULT = [False]    # does checkInitialMessage offer the first message to the default handler? probed in run()
+TS = bytes.fromhex("0080000c0000000000000001")
+
+
+def ren(*params):
+    body = TS + b"".join(params)
+    return struct.pack(">HH", 246, 4 + len(body)) + body
+
+
+def conn_event(status):
+    return struct.pack(">HHH", 256, 6, status)
+
+
+def first_kinds(thorough):
+    """(name, type, payload, claimed length or None, bytes actually sent or None, Connect goes on?)"""
+    exc = struct.pack(">HHH", 252, 4 + 2 + 4, 4) + b"boom"          # ReaderExceptionEvent{Message: "boom"}
+    ks = [("ok", 63, ren(conn_event(0)), None, None, True),
+          ("ok-with-exception-event", 63, ren(exc, conn_event(0)), None, None, True)]
+    for st in (1, 2, 3, 4) + ((5, 255, 65535) if thorough else ()):
+        ks.append(("attempt-status-%d" % st, 63, ren(conn_event(st)), None, None, False))
+    ks += [("no-attempt-event", 63, ren(), None, None, False),
+           ("empty-event", 63, b"", None, None, False),
+           ("malformed-event", 63, bytes.fromhex("ffee01"), None, None, False),
+           ("keepalive", 62, b"", None, None, False),
+           ("keepalive-with-payload", 62, b"abc", None, None, False),
+           ("report", 61, payload(77, 20), None, None, False),
+           ("response", 12, payload(78, 5), None, None, False),
+           ("limit-sized", 63, payload(79, LIMIT), None, None, False),
+           ("oversize-claim", 63, ren(conn_event(0)), LIMIT + 11, None, False),
+           ("cut-short", 63, ren(conn_event(0)), None, 17, False)]
+    return ks
+
+
+def first_scenarios(rnd, thorough):
+    """the FIRST message of the connection goes through checkInitialMessage, not the read loop; it must be offered
+    exactly once to the handler of its type, else the default handler — whatever it is and whether Connect then
+    goes on or fails."""
+    out = []
+    for name, typ, pl, claimed, cut, goes_on in first_kinds(thorough):
+        for hname, hs, df in (("type", [typ], False), ("default", [], True), ("none", [], False), ("both", [typ], True)):
+            n = len(pl)
+            behs = [dict(k=rnd.choice([0, n // 2, n, n + 2]), panic=False), dict(k=1, panic=True)]
+            if thorough:
+                behs += [dict(k=n, panic=False, mode=m) for m in ("data", "unmarshal", "readall")]
+            for bi, bh in enumerate(behs):
+                fb = frame(typ, n, bh["k"], bh["panic"], mode=bh.get("mode", ""))
+                fr = struct.pack(">BBII", 1 << 2 | typ >> 8, typ & 255, claimed if claimed is not None else n + 10, 0) + pl
+                if cut is not None:
+                    fr = fr[:cut]
+                b = Builder("first/%s/%s/%d" % (name, hname, bi), hs, df)
+                b.sc.update(first=fr.hex(), first_beh=fb, step_ms=1500)
+                b.sc["_first"] = dict(typ=typ, plen=n, claimed=(claimed - 10) if claimed is not None else n, cut=cut,
+                                      goes_on=goes_on, pl=pl.hex() if n <= 64 else "", pseed=None)
+                b.sc["_pl"] = pl
+                if goes_on:
+                    b.chunk([frame(T_U, 3, 1, mid=0xFFFD0001)])
+                out.append(b.sc)
+    return out
+
+
+def first_oracle_request(sc):
+    return "first %d %s %d %d %s" % (LIMIT, ",".join(map(str, sc["handlers"])) or "-", 1 if sc["default"] else 0,
+                                     1 if FIRST_DEFAULT[0] else 0, sc["first"])
+
+
+def first_check(sc, go):
+    """-> (property failures [(sig, text)], who should have been offered it)"""
+    fi, fb, pl = sc["_first"], sc["first_beh"], sc["_pl"]
+    fails = []
+    recs = go["records"]
+    complete = fi["cut"] is None and fi["claimed"] == fi["plen"]
+    offered = complete and fi["plen"] <= LIMIT
+    want = [1, fi["typ"], fi["claimed"], 0]
+    if fi["cut"] is None or fi["cut"] >= 10:
+        if not recs or recs[0]["hdr"] != want:
+            fails.append(("first-message-misparsed", "the first header should be parsed as %s, the client parsed %s" % (want, recs[0]["hdr"] if recs else None)))
+            return fails, None
+    calls = recs[0]["calls"] if recs else []
+    ent = ("T%d" % fi["typ"]) if fi["typ"] in sc["handlers"] else ("D" if sc["default"] else None)
+    if not offered:
+        ent = None
+    if ent is None:
+        if calls:
+            fails.append(("first-message-offered-to-wrong-party", "nobody is entitled to the first message, but %s was called" % calls))
+    else:
+        k = min(fb["k"], fi["plen"])
+        if not calls:
+            sig = "first-message-skips-default-handler" if ent == "D" else "first-message-not-offered:type-handler"
+            fails.append((sig, "the first message of the connection (type %d, %d payload bytes; Connect %s) was never offered to %s" % (
+                fi["typ"], fi["plen"], "goes on" if fi["goes_on"] else "fails afterwards",
+                "the default handler, the only handler configured" if ent == "D" else "the handler registered for its type")))
+        elif len(calls) != 1 or calls[0]["who"] != ent or calls[0]["hdr"] != want:
+            fails.append(("first-message-not-exactly-once", "first message: entitled %s with %s once, calls %s" % (ent, want, calls)))
+        elif calls[0]["nread"] != k or calls[0]["md5"] != md5(pl[:k]):
+            fails.append(("first-message-wrong-bytes", "first message: the handler asked for %d of %d bytes and must see the first %d "
+                          "(md5 %s); it read %d, md5 %s" % (fb["k"], fi["plen"], k, md5(pl[:k]), calls[0]["nread"], calls[0]["md5"])))
+        elif fb["panic"] and recs[0]["paniclog"] != 1:
+            fails.append(("first-message-panic-not-recovered", "handler panic on the first message: HandlerPanic logged %d times" % recs[0]["paniclog"]))
+    if fi["goes_on"]:
+        if len(recs) < 2 or recs[1]["hdr"] != [1, T_U, 3, 0xFFFD0001] or go["early_exit"]:
+            fails.append(("connection-does-not-go-on-after-first", "after a successful connection event (and a handler that %s) the next "
+                          "frame must be read; records: %s, Connect: %s" % ("panicked" if fb["panic"] else "returned", [r["hdr"] for r in recs], go["connect_err"])))
+    elif go["connect_err"] not in ("other",):
+        fails.append(("connect-accepts-bad-first-message", "Connect should fail on this first message; result %s" % go["connect_err"]))
+    return fails, ent
+
+
 def random_scenarios(rnd, count):
     out = []
     for si in range(count):
@@ -586,6 +693,12 @@ def run(tier, seed, replay=None):
                       "delivered to the caller" % T_U, dict(kind="scenario", scenarios=[probe(T_U)]))
         return res.finish()
 
+    # is the first message offered to a default handler?
+    pf = first_scenarios(random.Random(1), False)
+    pf = [x for x in pf if x["name"] == "first/ok/default/0"][:1]
+    pfa, _, _ = run_go(exe, [{k: v for k, v in x.items() if not k.startswith("_")} for x in pf], 60)
+    FIRST_DEFAULT[0] = bool(((pfa.get(0) or {}).get("records") or [{}])[0].get("calls"))
+    res.notes.append("first message offered to the default handler (probed): %s" % FIRST_DEFAULT[0])
     if not replay and (thorough or not CLOSE_PARKS[0]):
         scs += closeresp_scenarios()          # costs a watchdog period on a tree where the loop parks
     answers, crashed, unrun = run_go(exe, scs, 2400 if thorough else 600)
@@ -649,6 +762,39 @@ def run(tier, seed, replay=None):
             sig = "model-differs"
             if sig not in by_sig or len(json.dumps(sc)) < len(json.dumps(by_sig[sig][1])):
                 by_sig[sig] = ("implementation and read-loop model differ where the property holds: " + "; ".join(diffs[:3]), sc, go, olines[i])
+    # ---- the first message of the connection
+    fscs = []
+    if replay:
+        fscs = [x for x in scs if "first" in x]
+        for x in fscs:
+            x["_pl"] = bytes.fromhex(x["first"])[10:10 + x["_first"]["plen"]] if x["_first"]["cut"] is None else bytes.fromhex(x["_first"].get("pl", ""))
+    else:
+        fscs = first_scenarios(random.Random(seed + 11), thorough)
+    if fscs:
+        wire = [{k: v for k, v in x.items() if k != "_pl"} for x in fscs]
+        fa, fcr, _ = run_go(exe, wire, 600)
+        frc, fol = run_oracle([first_oracle_request(x) for x in fscs])
+        for i, log in fcr:
+            by_sig.setdefault("process-crash:first-message", ("the test binary died while the first message was being handled: %s" % log[-800:],
+                                                             wire[i], None, ""))
+        for i, x in enumerate(fscs):
+            go = fa.get(i)
+            if not go or go.get("skipped"):
+                continue
+            go["records"] = go.get("records") or []
+            for r in go["records"]:
+                r["calls"] = r.get("calls") or []
+            evals += 1
+            dist["first"] = dist.get("first", 0) + 1
+            fails, ent = first_check(x, go)
+            nontriv.add(("first", x["name"].split("/")[1], x["name"].split("/")[2], x["first_beh"]["panic"], x["first_beh"].get("mode") or "readfull"))
+            mcalled = i < len(fol) and "called=1" in fol[i]
+            gcalled = bool(go["records"] and go["records"][0]["calls"])
+            for sig, text in fails:
+                if sig not in by_sig:
+                    by_sig[sig] = ("%s" % text, wire[i], go, fol[i] if i < len(fol) else "")
+            if not fails and mcalled != gcalled and "model-differs" not in by_sig:
+                by_sig["model-differs"] = ("first message: model says offered=%s, implementation offered=%s" % (mcalled, gcalled), wire[i], go, fol[i])
     for sig, (text, sc, go, ol) in sorted(by_sig.items()):
         rp = dict(kind="scenario", correspondence="C04/read-loop-vs-serve", scenarios=[sc], observed=go, expected=ol[:4000])
         res.violation(sig, "scenario %s: %s" % (sc["name"], text), rp, found_input=(sig != "model-differs"))
